@@ -5,6 +5,7 @@ mod engine;
 mod grid;
 mod helpers;
 mod refmath;
+mod scn_lair;
 mod scn_pair;
 mod scn_trio;
 mod scn_vault;
@@ -38,6 +39,7 @@ fn main() {
                 "C05" => checks::c05::run(&tier, seed),
                 "C06" => checks::c06::run(&tier, seed),
                 "C07" => checks::c07::run(&tier, seed),
+                "C08" => checks::c08::run(&tier, seed),
                 _ => {
                     eprintln!("unknown property {id}");
                     2
@@ -56,6 +58,7 @@ fn main() {
                 "C05" => checks::c05::replay(&doc),
                 "C06" => checks::c06::replay(&doc),
                 "C07" => checks::c07::replay(&doc),
+                "C08" => checks::c08::replay(&doc),
                 _ => {
                     eprintln!("unknown property in replay file");
                     std::process::exit(2)
